@@ -93,6 +93,8 @@ def ref_pairs(g, n):
             p['path'] = ('/' if p['authority'] is not None or g.r.random() < 0.6 else '') + '/'.join(g.pick(['a', 'b', '', '.', '..', '%61', 'b:c', '%2F', '%FF', '%C3%A9', '%c0%af']) for _ in range(g.pick([0, 1, 2, 3, 4])))
             if p['authority'] is None and p['path'].startswith('//'): p['path'] = '/a' + p['path'][1:]
             if p['authority'] is None and p['scheme'] is None and ':' in p['path'].split('/')[0]: p['path'] = './' + p['path']
+        if p['authority'] is None and g.r.random() < 0.08:     # relative paths that keep several leading '..'
+            p['path'] = '/'.join(['..'] * g.pick([1, 2, 3]) + [g.pick(['a', 'b', '..', ''])][:g.pick([0, 1])])
         k = g.r.random()
         if k < 0.4:
             q = equal_variant(g, p)
@@ -111,6 +113,6 @@ COMPONENT_VOCAB = {
     'fragment': ['', 'f', '%66', 'F', '/', '%2F', '%FF'],
     'scheme': ['s', 'S', 'http', 'HTTP', 'a+b', 'a-b'],
     'port': ['', '0', '80', '080', '8080'],
-    'path': ['', '/', 'a', '/a', 'a/', 'a/.', 'a/./b', 'a/b', 'a/x/../b', '/a/../..', '/', '..', '../a', 'a/../..', '%61', '/%61/', '//a', '/./a', './a', 'b/%2e%2e', '/a/b/..', '/a/', '%FF', 'a//b', 'a/b/'],
+    'path': ['../..', '../../a', '../../..', 'a/../../..', '../a/../..', '', '/', 'a', '/a', 'a/', 'a/.', 'a/./b', 'a/b', 'a/x/../b', '/a/../..', '/', '..', '../a', 'a/../..', '%61', '/%61/', '//a', '/./a', './a', 'b/%2e%2e', '/a/b/..', '/a/', '%FF', 'a//b', 'a/b/'],
     'authority': ['', 'h', '%68', 'u@h', '%75@h', 'u@h:', 'u@h:80', 'h:80', 'h:080', '[::1]:80', '@h', 'u:p@h', 'H'],
 }
